@@ -941,6 +941,7 @@ int vnacal_save(vnacal_t *vcp, const char *pathname)
     }
     (void)yaml_emitter_delete(&emitter);
     if (fclose(fp) == -1) {
+	fp = NULL;
 	_vnacal_error(vcp, VNAERR_SYSTEM, "fclose: %s: %s",
 		vcp->vc_filename, strerror(errno));
 	goto error;
